@@ -7,6 +7,7 @@ import PW.Overlap
 import PW.Rng
 import PW.OpModel
 import PW.Routing
+import PW.Decide
 /-!
 # JSON-lines driver for the executable model (compiled as `pwdriver`, Mathlib-free)
 
@@ -322,6 +323,21 @@ def step (s : St) (j : Json) : Except String (St × Json) := do
       let dT ← natList (← j.getObjVal? "dims")
       let m ← buildOp name p dT
       pure (s, ok [("n", toJson m.n), ("m", cfArrToJson m.a)])
+  | "contract_decide" => do
+      let tol ← getF j "tol"
+      let purity ← getF j "purity"
+      let eigs ← (← (← j.getObjVal? "eigs").getArr?).toList.mapM ofBitsJ
+      let d := Decide.contractDecision (Decide.closeF tol) purity eigs
+      pure (s, ok [("attempt", Json.bool d.attempt), ("index", toJson d.index)])
+  | "kraus_check" => do
+      let tol ← getF j "tol"
+      let d ← (← j.getObjVal? "d").getNat?
+      let arr ← (← j.getObjVal? "ops").getArr?
+      let Ks ← arr.toList.mapM fun u => do
+        let a ← cfArrOfJson u
+        if a.size ≠ d * d then throw "kraus operator size mismatch"
+        pure (opTensor [d] a)
+      pure (s, ok [("accept", Json.bool (Decide.krausCheck (Decide.allcloseF tol) d Ks))])
   | "einsum" => do
       let fn ← (← j.getObjVal? "fn").getStr?
       let n ← (← j.getObjVal? "n").getNat?
